@@ -6,6 +6,8 @@ import (
 	"sync"
 
 	"go.pennock.tech/tabular"
+	"go.pennock.tech/tabular/properties"
+	"go.pennock.tech/tabular/properties/align"
 	"go.pennock.tech/tabular/texttable/decoration"
 
 	"verifharness/internal/gen"
@@ -79,7 +81,7 @@ func init() {
 	register(&Prop{
 		ID:    "C09",
 		Level: "exploration",
-		Rule: "phase 0 (exhaustive): every sequence of up to L building operations (L=3 quick, L=5 thorough) over the 13-operation alphabet {AddHeaders(0|1|2 items), AddRowItems(0|1|3), AddSeparator, AppendNewRow, Add on the last row handle, AddRow(prebuilt 0|2 cells), Add on AllRows()[last] (possibly a separator), AddRow(NewRowSizedFor+1)} crossed with 6 item flavours (plain, multi-line, declared size below/above actual, unicode/invalid, empty/nil/rune); " +
+		Rule: "phase 0 (exhaustive): every sequence of up to L building operations (L=3 quick, L=5 thorough) over the 13-operation alphabet {AddHeaders(0|1|2 items), AddRowItems(0|1|3), AddSeparator, AppendNewRow, Add on the last row handle, AddRow(prebuilt 0|2 cells), Add on AllRows()[last] (possibly a separator), AddRow(NewRowSizedFor+1)} crossed with 6 item flavours (plain, multi-line, declared size below/above actual, unicode/invalid, empty/nil/rune), each table then put under one of five legal configurations (none; default right; default centre; two columns right/centre; left + centre + skipable default + last column right); " +
 			"phase 1 (exhaustive): all sequences of length L+1 for the flavour whose items declare less than they have (and, in quick, the plain flavour); phase 2: random sequences of up to 40 operations with items from the whole item zoo. Every resulting table is rendered through csv/html/json/markdown wrappers, a text wrapper under every registered decoration (the six built-ins plus one complete and seven partially filled, never Populate()d decorations registered by the check), and (for every 8th sequence of the exhaustive phases and all random ones) auto.Render for every listed style, under a panic guard; all routes render the same table object one after the other in an order that varies from case to case. " +
 			"Distinct = distinct (sequence, flavour) pairs; non-trivial = the table has at least one row or header.",
 		Assumptions: []string{
@@ -167,6 +169,34 @@ func (b *c09Builder) apply(op int) {
 	}
 }
 
+// c09Configure puts one of five legal configurations in force (alignments of the right type on column 0 and on
+// columns, the skipable flag): totality is claimed for every table, configured or not.
+var c09ConfigNames = []string{"none", "column 0 (default) right", "column 0 (default) centre", "column 1 right, column 2 centre", "column 0 left, column 1 centre, column 0 skipable, last column right"}
+
+func c09Configure(t tabular.Table, cfg int) string {
+	cfg %= len(c09ConfigNames)
+	set := func(n int, k, v interface{}) {
+		if n <= t.NColumns() {
+			t.Column(n).SetProperty(k, v)
+		}
+	}
+	switch cfg {
+	case 1:
+		set(0, align.PropertyType, align.Right)
+	case 2:
+		set(0, align.PropertyType, align.Center)
+	case 3:
+		set(1, align.PropertyType, align.Right)
+		set(2, align.PropertyType, align.Center)
+	case 4:
+		set(0, align.PropertyType, align.Left)
+		set(1, align.PropertyType, align.Center)
+		set(0, properties.Skipable, true)
+		set(t.NColumns(), align.PropertyType, align.Right)
+	}
+	return c09ConfigNames[cfg]
+}
+
 func c09Exh(c *Ctx, seqIdx, flavour int) {
 	seq := c09Decode(seqIdx)
 	fl := c09Flavours[flavour]
@@ -185,6 +215,7 @@ func c09Exh(c *Ctx, seqIdx, flavour int) {
 	for _, op := range seq {
 		b.apply(op)
 	}
+	desc["configuration"] = c09Configure(b.t, seqIdx/3+flavour)
 	sig := gen.Hash64(fmt.Sprint(seq), fl.name)
 	c.Rec.Eval(sig, len(seq) > 0)
 	if c.Rec.WantSample() && len(seq) >= 3 {
@@ -218,6 +249,7 @@ func c09Random(c *Ctx, i int, r *gen.R) {
 		b.apply(seq[k])
 	}
 	desc["items"] = specs
+	desc["configuration"] = c09Configure(b.t, r.Intn(len(c09ConfigNames)))
 	c.Rec.Eval(gen.Hash64(fmt.Sprint(seq), fmt.Sprint(len(specs))), true)
 	c09RenderAll(c, b.t, desc, true, r.Uint64())
 }
